@@ -70,7 +70,9 @@ def test_queue(rng, n=300):
 
 def test_determinism():
     import logging
+    import warnings
     logging.disable(logging.CRITICAL)
+    warnings.simplefilter('ignore')
     from vf import core
     c = core.load_check('C01')
     c.setup()
